@@ -26,6 +26,8 @@ structure Round where
   seq : Nat
   prev : Outcome
   hasPrev : Bool
+  prevIn : PrevIn          -- the previous outcome as the byte slice `Outcome` receives (nil / empty / undecodable / decoded)
+  prevMode : String
   obs : List (Option Observation)
   oracles : List Nat
 
@@ -73,12 +75,36 @@ def decode (input : Json) : R Round := do
       wg := fun u t => match wgL.find? (fun e => e.1.1 == u && e.1.2 == t) with | some e => e.2 | none => "\x00unknown"
       key := fun w => (keyM.get? w).getD w
       uid := fun r => match uidT.find? (fun e => e.1 == r) with | some e => e.2 | none => "" }
-  pure { ctx := ctx, n := n, seq := ← natF input "seq", prev := prev, hasPrev := prevJ != .null, obs := obs, oracles := oracles }
+  let prevMode := (fieldD input "prevMode" (.str "")).getStr?.toOption.getD ""
+  let prevRaw := (fieldD input "prevRaw" (.str "")).getStr?.toOption.getD ""
+  let prevIn : PrevIn :=
+    if prevMode == "empty" then { nonNil := true, len := 0, decoded := none }
+    else if prevMode == "garbage" then { nonNil := true, len := prevRaw.length / 2, decoded := none }
+    else if prevJ == .null then { nonNil := false, len := 0, decoded := none }
+    else { nonNil := true, len := 1, decoded := some prev }   -- an encoded outcome is never empty; only `len ≠ 0` matters
+  pure { ctx := ctx, n := n, seq := ← natF input "seq", prev := prev, hasPrev := prevJ != .null, prevIn := prevIn,
+         prevMode := prevMode, obs := obs, oracles := oracles }
 
 /-- the model's outcome for the round, with the canonical iteration orders -/
 def modelOutcome (rd : Round) : Outcome :=
   let os := validObs rd.ctx limits rd.obs
   outcome rd.ctx limits rd.prev rd.obs (resKeys rd.ctx os) (blkKeys os)
+
+/-- the model's answer to the `Outcome` call of the round (`none` = the call fails on its previous outcome) -/
+def modelOutcomeCall (rd : Round) : Option Outcome :=
+  let os := validObs rd.ctx limits rd.obs
+  outcomeCall rd.ctx limits rd.prevIn rd.obs (resKeys rd.ctx os) (blkKeys os)
+
+/-- reply for a round on which the implementation returned an error instead of an outcome -/
+def refusedReply (rd : Round) (err : String) : Reply :=
+  let refused := (modelOutcomeCall rd).isNone
+  { agree := refused, specModel := true, specImpl := refused,
+    diff := if refused then "" else s!"implementation error: {err}; the model computes an outcome",
+    fail := if refused then "" else s!"Outcome failed: {err}",
+    nontrivial := refused, tags := ["impl-error", "prev-refused:" ++ rd.prevMode] }
+
+/-- the implementation returned an outcome although the previous outcome is one `Outcome` must refuse -/
+def acceptedBadPrev (rd : Round) : Bool := (modelOutcomeCall rd).isNone
 
 /-- the same with both iteration orders reversed (any permutation must give the same outcome) -/
 def modelOutcomeRev (rd : Round) : Outcome :=
